@@ -65,6 +65,13 @@ W = [
          input=J({'x': 1}, {'y': 2}), json_lines=[[{'_count': 1}]]),
     dict(id='percentile-column-expression', commit='939a4f9', props=['C20', 'C04'], query='* | json | p90(x), p10(x) | p90 - p10 as spread | fields spread',
          input=J({'x': 1}, {'x': 5}, {'x': 9}), json_lines=[[{'spread': 8}]]),
+    dict(id='fields-mode-whole-word', commit='a6b1cfe', props=['C20', 'C04', 'C12'], query='* | json | fields only_x',
+         input=J({'only_x': 1, '_x': 2, 'a': 3}), json_lines=[{'only_x': 1}]),
+    dict(id='fields-drop-prefix', commit='a6b1cfe', props=['C20', 'C04'], query='* | json | fields dropped',
+         input=J({'dropped': 4, 'ped': 5, 'a': 3}), json_lines=[{'dropped': 4}]),
+    dict(id='parse-as-needs-space', commit='738d329', props=['C04', 'C20'], query='* | json | parse "*" from s asx', input=J({'s': 'q'}), rejected=True),
+    dict(id='keyword-prefix-names', commit='dd26194', props=['C20', 'C04', 'C05'], query='* | json | sum_total + 1 as r | where true_x == 1 and nullable == 2 | fields r, sorted',
+         input=J({'sum_total': 1, 'true_x': 1, 'nullable': 2, 'sorted': 5}), json_lines=[{'r': 2, 'sorted': 5}]),
 ]
 
 
